@@ -7,12 +7,6 @@ import Uniflow.Proofs.FlowInv15
 namespace Uniflow.FlowInv
 open Uniflow.Tracer Uniflow.Node Uniflow.Flow
 
-/-- the ghost derivation tree is ordered: the copies of a write and the packets an action derives have
-ids larger than their parent's and smaller than `nx` -/
-def LogOrd (lg : Log) (nx : Nat) : Prop :=
-  (∀ p cs, aget lg.dels p = some cs → ∀ c ∈ cs, p < c ∧ c < nx) ∧
-  (∀ p qs, aget lg.acts p = some qs → ∀ q ∈ qs, p < q ∧ q < nx)
-
 theorem allSome_congr {α : Type} (g1 g2 : Pid → Option α) : ∀ (cs : List Pid) (as : List α),
     (∀ c ∈ cs, ∀ a, g1 c = some a → g2 c = some a) →
     allSome (cs.map g1) = some as → allSome (cs.map g2) = some as
@@ -115,5 +109,15 @@ theorem FIe_quiescent_eq (N : Nat) (links : List (Nat × List Tgt)) (hwf : TreeW
         have h3 : @HSub.hSub Nat Nat Nat _ g.next p + 1 ≤ @HAdd.hAdd Nat Nat Nat _ g.next 1 := by omega
         exact refAns_fuel_ge g.log p a _ _ (refAns_fuel_bound g.log g.next ho f p a hp hf) h3
   exact this g.roots g.resp hr h2
+
+/-- class T1, quiescence: the executable reference IS the list of responses (the log order is part of the
+invariant) -/
+theorem FIe_quiescent_ref_eq (N : Nat) (links : List (Nat × List Tgt)) (hwf : TreeWF N links) (g : G)
+    (h : FIe N links g) (hq : quiescent g = true) : refAnswers g = some g.resp := by
+  have ho : LogOrd g.log g.next := by obtain ⟨ss, hh⟩ := h; exact hh.logOrd
+  exact FIe_quiescent_eq N links hwf g h hq ho
+
+theorem FIe_logOrd (N : Nat) (links : List (Nat × List Tgt)) (g : G) (h : FIe N links g) : LogOrd g.log g.next := by
+  obtain ⟨ss, hh⟩ := h; exact hh.logOrd
 
 end Uniflow.FlowInv
